@@ -214,3 +214,91 @@ Proof.
   - assert (A := allN_spec _ 8 sw_info8 info (n8 _ W)). cbv beta in A. apply andb_prop in A. tauto.
   - assert (A := allN_spec _ 16 sw_pop_push_udfw info (n16 _ W)). cbv beta in A. apply andb_prop in A. tauto.
 Qed.
+
+(* ---------- consequences: C01 and C02 statements ---------- *)
+Open Scope N_scope.
+
+Lemma listN_eqb_eq a : forall b, listN_eqb a b = true -> a = b.
+Proof.
+  induction a as [|x a IH]; intros [|y b] H; cbn in H; try discriminate; [reflexivity|].
+  apply andb_prop in H. destruct H as [H1 H2]. apply N.eqb_eq in H1. subst y. f_equal. apply IH. exact H2.
+Qed.
+
+Lemma enc_result_eqb_eq a b : enc_result_eqb a b = true -> a = b.
+Proof.
+  destruct a as [x|], b as [y|]; cbn; intros H; try discriminate; [|reflexivity].
+  f_equal. apply listN_eqb_eq. exact H.
+Qed.
+
+Lemma instr_eqb_eq a b : instr_eqb a b = true -> a = b.
+Proof. unfold instr_eqb. destruct (instr_eq_dec a b); [trivial | discriminate]. Qed.
+
+Theorem enc_is_table i : wf_instr i -> enc i = of_spec (armv6m_enc i).
+Proof.
+  intros W. apply enc_result_eqb_eq. assert (A := codec_ok_all i W).
+  unfold codec_ok in A. apply andb_prop in A. tauto.
+Qed.
+
+Theorem dec_enc_roundtrip i hws : wf_instr i -> enc i = EncOk hws ->
+  dec (le_bytes hws) = DecOk (2 * N.of_nat (length hws)) i.
+Proof.
+  intros W E. assert (A := codec_ok_all i W). unfold codec_ok in A. apply andb_prop in A.
+  destruct A as [_ A]. unfold roundtrip_ok in A. rewrite E in A.
+  destruct (dec (le_bytes hws)) as [n j| |]; try discriminate.
+  apply andb_prop in A. destruct A as [A1 A2]. apply N.eqb_eq in A1. apply instr_eqb_eq in A2. now subst.
+Qed.
+
+Theorem enc_injective i j hws : wf_instr i -> wf_instr j -> enc i = EncOk hws -> enc j = EncOk hws -> i = j.
+Proof.
+  intros Wi Wj Ei Ej. assert (A := dec_enc_roundtrip i hws Wi Ei). assert (B := dec_enc_roundtrip j hws Wj Ej).
+  rewrite A in B. now inversion B.
+Qed.
+
+(* the encoder's output has one or two halfwords, each below 2^16 *)
+Theorem enc_length i hws : wf_instr i -> enc i = EncOk hws -> length hws = 1%nat \/ length hws = 2%nat.
+Proof.
+  intros W E. rewrite (enc_is_table i W) in E.
+  destruct (armv6m_enc i) as [h|] eqn:S; [|discriminate]. cbn in E. inversion E; subst h. clear E.
+  destruct i; cbn [armv6m_enc] in S;
+  repeat match type of S with
+  | context [match ?x with _ => _ end] => destruct x
+  end;
+  unfold dp, r3, ri5, ri8, row16, row32 in S;
+  repeat match type of S with context [if ?b then _ else _] => destruct b end;
+  inversion S; cbn; tauto.
+Qed.
+
+(* decoding looks at the first 2 or 4 bytes only *)
+Lemma dec_h0_app h0 r rest n i : dec_h0 h0 r = DecOk n i -> dec_h0 h0 (r ++ rest) = DecOk n i.
+Proof.
+  unfold dec_h0. destruct (N.shiftr h0 11) as [|p]; [trivial|].
+  do 5 (destruct p as [p|p|]; trivial);
+  destruct r as [|b2 [|b3 r']]; cbn [app]; trivial; discriminate.
+Qed.
+
+Theorem dec_app bs rest n i : dec bs = DecOk n i -> dec (bs ++ rest) = DecOk n i.
+Proof.
+  destruct bs as [|b0 [|b1 r]]; cbn [dec app]; try discriminate. apply dec_h0_app.
+Qed.
+
+Lemma le16_spec h : le16 h = [h mod 256; h / 256].
+Proof.
+  unfold le16. change 0xFF with (N.ones 8). rewrite N.land_ones, N.shiftr_div_pow2. reflexivity.
+Qed.
+
+Lemma le_bytes_spec hws : le_bytes hws = spec_bytes hws.
+Proof.
+  unfold le_bytes, spec_bytes. induction hws as [|h t IH]; [reflexivity|].
+  cbn [flat_map]. rewrite le16_spec, IH. reflexivity.
+Qed.
+
+Theorem enc_bytes_table i n : wf_instr i ->
+  enc_bytes i n = match armv6m_enc i with
+                  | None => EbUnrep
+                  | Some hws => let need := 2 * N.of_nat (length hws) in
+                                if N.ltb n need then EbOverflow need n else EbOk need (spec_bytes hws)
+                  end.
+Proof.
+  intros W. unfold enc_bytes. rewrite (enc_is_table i W).
+  destruct (armv6m_enc i) as [hws|]; cbn [of_spec]; [|reflexivity]. now rewrite le_bytes_spec.
+Qed.
